@@ -102,6 +102,7 @@ func (g Generator) Generate(openapi3Spec *openapi3.Swagger, outDir string, packa
 		}
 		basePath = u.Path
 	}
+	basePath = strings.TrimSuffix(basePath, "/")
 
 	gen, err := generator.NewGenerator(s,
 		cfg,
